@@ -16,6 +16,9 @@
 (*   "IniAsDefaultsFirstOnly"  in as-defaults mode a repeated key keeps    *)
 (*                          only its first entry (ini.go:599)              *)
 (*   "IniWriterQuoting"     the writer quotes only non-printable strings   *)
+(*   "IniWriterPtrString"   a *string is never quoted by the writer        *)
+(*   "IniWriterNilPtr"      a nil pointer is written as `name =`           *)
+(*   "IniSectionMapOrder"   sections are applied in map iteration order    *)
 (***************************************************************************)
 EXTENDS ArgParse
 
@@ -234,7 +237,7 @@ OptLines(s, o, iniopts, readName, forceQuote) ==
       v == s.val[o]
       q(t) == forceQuote \/ NeedsQuote(od, t)
       body ==
-        IF od.kind \in {"slice", "counter"} THEN
+        IF od.kind \in {"slice", "counter", "sliceptr"} THEN
              IF v = <<>> THEN <<WriteOptLine(name, E, FALSE, E, forceQuote, TRUE)>>
              ELSE [i \in 1..Len(v) |-> WriteOptLine(name, E, FALSE, RenderAtom(od, v[i]), q(RenderAtom(od, v[i])), commented)]
         ELSE IF od.kind = "map" THEN
